@@ -40,7 +40,7 @@ chk("C07", "model_checking", "self-composition (twin devices) explored by explic
 
 chk("C04", "model_checking", "exhaustive one-command-deep value sweep from base states + explicit-state BFS over histories, hang detection via owned fair RNG with draw budget",
     "Layer A: in every region, ABP and OTAA, from five base states, one authentic downlink carrying one MAC command with its full field-value domain (or one JoinAccept with all 256 DLSettings x RxDelay x CFList variants) is delivered to the real device; every distinct resulting snapshot is followed by two uplinks with the first RNG draw enumerated 0..63. Layer B: BFS over histories with commands that shrink the mask, delete channels and change data rate, junk/oversized frames, set_datarate, joins with minimal CFLists and ADR back-off. Every call runs under catch_unwind; the scripted RNG is fair and panics after 4096 draws per call so that a selection loop that cannot exit is a detected hang; async calls must complete under a poll-driven executor.",
-    "Trusted: the mocks and the fair-RNG argument (every low-bit pattern recurs). nb runs the full Layer A domain, the async front-ends a stride of it (shared MAC code). Layer C: runs of 150-400 unanswered join attempts per join-bias setting on the fixed plans; Class C idle listening hears junk and oversized frames. Invalid application arguments are outside the alphabet.",
+    "Trusted: the mocks and the fair-RNG argument (every low-bit pattern recurs). nb runs the full Layer A domain, the async front-ends a stride of it (shared MAC code). Layer C: runs of 150-400 unanswered join attempts per join-bias setting on the fixed plans; Class C idle listening hears junk and oversized frames. Layer B also sends uplinks with the largest payload the data rate in force carries (found the prepare_buffer panic with queued answers, fix 5b1bde2). Application arguments no data rate admits are outside the alphabet.",
     "DESIGN.md §3 C04")
 
 chk("C10", "model_checking", "explicit-state BFS over command / data-rate / (re-)join / uplink histories with a reference model of the parameters in force, plus an exhaustive configuration sweep; independent regional tables as oracle",
